@@ -241,7 +241,7 @@ func genRoutetab(run *hx.Run, add func(*Case)) {
 	modes := []string{"01", "", "00", "ff02"}
 	for di, d := range []string{self, hx.Hex(conn[2].Bytes()), "", hx.Hex(make([]byte, 300))} {
 		for mi, md := range modes {
-			if di > 1 && (mi > 0 || (di > 2 && !run.Thorough())) { // each non-neighbour target waits for the 3 s route search
+			if di > 1 && (mi > 0 || !run.Thorough()) { // each non-neighbour target waits for the 3 s route search
 				continue
 			}
 			mk("routetab.connchain", "relay-conn-chain", &rtMsg{Dest: d, Src: peer, SrcMode: md, PName: "x", PVer: "1", SName: "s", RPaths: []string{peer, ""}})
